@@ -4,6 +4,7 @@ import (
 	"context"
 	"encoding/json"
 	"fmt"
+	"github.com/ipfs/go-graphsync/dedupkey"
 	"strings"
 
 	blocks "github.com/ipfs/go-block-format"
@@ -244,6 +245,98 @@ func c23MultiJudgeAll(cs c23Multi) (out []*core.Violation) {
 	return
 }
 
+// ---- two requests of one peer over the SAME DAG (no key / a dedup key each / one shared key), the responder's
+// first send stalled so that everything else accumulates in one pending message; once all requests have ended
+// the statistics must report nothing active, nothing pending and no allocated memory
+type c23Shared struct {
+	Shared bool   `json:"responder_shared_blocks"`
+	Keys   string `json:"dedup_keys"` // none | same | different
+	W      int    `json:"incoming_workers"`
+}
+
+func c23SharedCases() []c23Shared {
+	var out []c23Shared
+	for _, k := range []string{"none", "same", "different"} {
+		for _, w := range []int{1, 2} {
+			out = append(out, c23Shared{Shared: true, Keys: k, W: w})
+		}
+	}
+	return out
+}
+
+func c23SharedJudge(cs c23Shared) *core.Violation {
+	var stats, panicked string
+	var notDone []string
+	sh := harness.Shape{Name: "chain3", Blocks: []harness.BlockSpec{{Edges: []harness.Edge{{To: 1}}}, {Edges: []harness.Edge{{To: 2}}}, {}}}
+	s := vsched.Run(vsched.Config{Fast: true}, func() {
+		f := harness.NewFixture(true)
+		rs := harness.NewStore()
+		d := harness.Build(sh, "c23-shared")
+		for i, l := range d.Links {
+			rs.Put(l, d.Data[i])
+		}
+		r := f.AddNode(peer.ID("R"), rs, gsimpl.MaxInProgressIncomingRequests(uint64(cs.W)))
+		p1 := f.AddScript(peer.ID("P1"))
+		f.Net.SendFault = func(from, to peer.ID, k int, m gsmsg.GraphSyncMessage) harness.FaultAction {
+			if from == r.ID && k == 0 {
+				return harness.SendHold
+			}
+			return harness.SendOK
+		}
+		step := func() {
+			vsched.Quiesce()
+			for f.Net.Node(r.ID).Pending(p1.ID) > 0 || f.Net.Node(p1.ID).Pending(r.ID) > 0 {
+				f.Net.Node(r.ID).DeliverNext(p1.ID)
+				f.Net.Node(p1.ID).DeliverNext(r.ID)
+				vsched.Quiesce()
+			}
+		}
+		ids := []graphsync.RequestID{harness.MkID(41), harness.MkID(42)}
+		for i, id := range ids {
+			var exts []graphsync.ExtensionData
+			key := ""
+			switch cs.Keys {
+			case "same":
+				key = "k"
+			case "different":
+				key = fmt.Sprintf("k%d", i)
+			}
+			if key != "" {
+				n, _ := dedupkey.EncodeDedupKey(key)
+				exts = append(exts, graphsync.ExtensionData{Name: graphsync.ExtensionDeDupByKey, Data: n})
+			}
+			p1.Say(r.ID, harness.ReqMsg(gsmsg.NewRequest(id, d.Root.(cidlink.Link).Cid, harness.RecAll(10), 1, exts...)))
+			step()
+		}
+		f.Net.ReleaseHeld()
+		step()
+		step()
+		for _, id := range ids {
+			if len(r.Rec.Completed[id]) == 0 {
+				notDone = append(notDone, harness.ShortID(id))
+			}
+		}
+		st := r.GS.Stats()
+		stats = fmt.Sprintf("active=%d pending=%d allocated=%d pending-allocations=%d", st.IncomingRequests.Active, st.IncomingRequests.Pending, st.OutgoingResponses.TotalAllocatedAllPeers, st.OutgoingResponses.TotalPendingAllocations)
+		f.Cancel()
+	})
+	if s.Panic != nil {
+		panicked = fmt.Sprint(s.Panic)
+	}
+	v := func(sig, what string) *core.Violation {
+		return &core.Violation{Signature: sig + "/responder-shared-blocks", What: fmt.Sprintf("two requests for the same 3-block chain (dedup keys %s, %d incoming worker(s)), first send stalled: %s", cs.Keys, cs.W, what), Replay: cs}
+	}
+	switch {
+	case panicked != "":
+		return v("panic", panicked)
+	case len(notDone) > 0:
+		return v("request-never-completes", fmt.Sprintf("%v (stats %s)", notDone, stats))
+	case stats != "active=0 pending=0 allocated=0 pending-allocations=0":
+		return v("statistics-not-zero-after-all-requests-ended", stats)
+	}
+	return nil
+}
+
 func c23MultiCases() []c23Multi {
 	alpha := []string{"cancelB-ctx", "cancelB-api", "cancelA-ctx", "cancelA-api", "answerA", "answerB", "issueC", "answerC", "cancelC-ctx"}
 	var out []c23Multi
@@ -276,7 +369,13 @@ func c23MultiCases() []c23Multi {
 type c23RspMulti struct {
 	RspMulti bool     `json:"responder_multi"`
 	Evs      []string `json:"events"`
+	W        int      `json:"incoming_workers,omitempty"` // default 1
+	M        int      `json:"per_peer_maximum,omitempty"` // 0: none
 }
+
+// limit monitor of the last c23RspMultiJudge run: the largest number of the peer's requests active at a
+// quiescent point (task queue's own view)
+var c23RspMaxActive int
 
 func c23RspMultiJudge(cs c23RspMulti) *core.Violation {
 	var diag []string
@@ -287,18 +386,24 @@ func c23RspMultiJudge(cs c23RspMulti) *core.Violation {
 	s := vsched.Run(vsched.Config{Fast: true}, func() {
 		f := harness.NewFixture(true)
 		rs := harness.NewStore()
-		dA, dB := harness.Build(sh, "c23-rA"), harness.Build(sh, "c23-rB")
+		dA, dB, dC := harness.Build(sh, "c23-rA"), harness.Build(sh, "c23-rB"), harness.Build(sh, "c23-rC")
 		one := 0
-		for _, d := range []*harness.DAG{dA, dB} {
+		for _, d := range []*harness.DAG{dA, dB, dC} {
 			for i, l := range d.Links {
 				rs.Put(l, d.Data[i])
 				one = max(one, len(d.Data[i]))
 			}
 		}
-		r := f.AddNode(peer.ID("R"), rs, gsimpl.MaxInProgressIncomingRequests(1), gsimpl.MaxMemoryPerPeerResponder(uint64(one)))
+		ropts := []gsimpl.Option{gsimpl.MaxInProgressIncomingRequests(uint64(max(cs.W, 1))), gsimpl.MaxMemoryPerPeerResponder(uint64(one))}
+		if cs.M > 0 {
+			ropts = append(ropts, gsimpl.MaxInProgressIncomingRequestsPerPeer(uint64(cs.M)))
+		}
+		r := f.AddNode(peer.ID("R"), rs, ropts...)
 		p1 := f.AddScript(peer.ID("P1"))
 		gsr := r.GS.(*gsimpl.GraphSync)
-		idA, idB := harness.MkID(31), harness.MkID(32)
+		c23RspMaxActive = 0
+		idA, idB, idC := harness.MkID(31), harness.MkID(32), harness.MkID(33)
+		issuedC := false
 		held := true
 		f.Net.SendFault = func(from, to peer.ID, k int, m gsmsg.GraphSyncMessage) harness.FaultAction {
 			if from == r.ID && held && len(m.Blocks()) > 0 {
@@ -314,9 +419,11 @@ func c23RspMultiJudge(cs c23RspMulti) *core.Violation {
 		})
 		cancelled := map[graphsync.RequestID]bool{}
 		observe := func() {
-			for rid, ds := range gsr.PeerState(p1.ID).IncomingState.Diagnostics() {
+			ps := gsr.PeerState(p1.ID).IncomingState
+			for rid, ds := range ps.Diagnostics() {
 				diag = append(diag, fmt.Sprintf("%s: %s", harness.ShortID(rid), strings.Join(ds, "; ")))
 			}
+			c23RspMaxActive = max(c23RspMaxActive, len(ps.TaskQueueState.Active))
 		}
 		step := func() {
 			vsched.Quiesce()
@@ -330,8 +437,13 @@ func c23RspMultiJudge(cs c23RspMulti) *core.Violation {
 		sel := harness.RecAll(10)
 		p1.Say(r.ID, harness.ReqMsg(gsmsg.NewRequest(idA, dA.Root.(cidlink.Link).Cid, sel, 1)))
 		step()
-		p1.Say(r.ID, harness.ReqMsg(gsmsg.NewRequest(idB, dB.Root.(cidlink.Link).Cid, sel, 1)))
-		step()
+		issuedB := cs.M == 0
+		if issuedB {
+			p1.Say(r.ID, harness.ReqMsg(gsmsg.NewRequest(idB, dB.Root.(cidlink.Link).Cid, sel, 1)))
+			step()
+		}
+		// (with a per-peer maximum only the paused request A exists at first: once resumed it is the one that
+		// runs behind the stalled send, and request C arrives while it does)
 		for _, e := range cs.Evs {
 			switch e {
 			case "unpauseA":
@@ -345,13 +457,21 @@ func c23RspMultiJudge(cs c23RspMulti) *core.Violation {
 				cancelled[idA] = true
 				_ = r.GS.Cancel(context.Background(), idA)
 			case "pauseB":
-				_ = r.GS.Pause(context.Background(), idB)
+				if issuedB {
+					_ = r.GS.Pause(context.Background(), idB)
+				}
 			case "cancelB":
-				cancelled[idB] = true
-				p1.Say(r.ID, harness.ReqMsg(gsmsg.NewCancelRequest(idB)))
+				if issuedB {
+					cancelled[idB] = true
+					p1.Say(r.ID, harness.ReqMsg(gsmsg.NewCancelRequest(idB)))
+				}
 			case "release":
 				held = false
 				f.Net.ReleaseHeld()
+			case "newC":
+				// a third request of the same peer
+				issuedC = true
+				p1.Say(r.ID, harness.ReqMsg(gsmsg.NewRequest(idC, dC.Root.(cidlink.Link).Cid, harness.RecAll(10), 1)))
 			}
 			step()
 		}
@@ -366,7 +486,10 @@ func c23RspMultiJudge(cs c23RspMulti) *core.Violation {
 			}
 			step()
 		}
-		for _, id := range []graphsync.RequestID{idA, idB} {
+		for _, id := range []graphsync.RequestID{idA, idB, idC} {
+			if (id == idC && !issuedC) || (id == idB && !issuedB) {
+				continue
+			}
 			if !cancelled[id] && len(r.Rec.Completed[id]) == 0 && r.Rec.NetErr[id] == 0 {
 				notDone = append(notDone, harness.ShortID(id))
 			}
@@ -382,11 +505,15 @@ func c23RspMultiJudge(cs c23RspMulti) *core.Violation {
 		panicked = fmt.Sprint(s.Panic)
 	}
 	v := func(sig, what string) *core.Violation {
-		return &core.Violation{Signature: sig + "/responder", What: fmt.Sprintf("one incoming worker, A paused by the request hook, B running behind a stalled send, then %v: %s", cs.Evs, what), Replay: cs}
+		return &core.Violation{Signature: sig + "/responder", What: fmt.Sprintf("%d incoming worker(s), per-peer maximum %d, A paused by the request hook, B running behind a stalled send, then %v: %s", max(cs.W, 1), cs.M, cs.Evs, what), Replay: cs}
 	}
 	switch {
 	case panicked != "":
 		return v("panic", panicked)
+	case cs.M > 0 && c23RspMaxActive > cs.M:
+		return v("per-peer-limit-exceeded", fmt.Sprintf("%d requests of one peer active at a quiescent point, the per-peer maximum is %d", c23RspMaxActive, cs.M))
+	case c23RspMaxActive > max(cs.W, 1):
+		return v("too-many-requests-active", fmt.Sprintf("%d requests active at a quiescent point, the maximum is %d", c23RspMaxActive, max(cs.W, 1)))
 	case len(diag) > 0:
 		return v("state-disagrees-with-queue-at-quiescence", fmt.Sprintf("diagnostics at a quiescent point: %v", diag[:min(len(diag), 3)]))
 	case len(notDone) > 0:
@@ -400,12 +527,14 @@ func c23RspMultiJudge(cs c23RspMulti) *core.Violation {
 }
 
 func c23RspMultiCases() []c23RspMulti {
-	alpha := []string{"unpauseA", "unpauseA-ext", "cancelA", "r-cancelA", "pauseB", "cancelB", "release"}
+	alpha := []string{"unpauseA", "unpauseA-ext", "cancelA", "r-cancelA", "pauseB", "cancelB", "release", "newC"}
 	var out []c23RspMulti
 	var rec func(cur []string)
 	rec = func(cur []string) {
 		if len(cur) > 0 {
 			out = append(out, c23RspMulti{RspMulti: true, Evs: append([]string{}, cur...)})
+			// two workers with a per-peer maximum of one: the peer's second request waits for the first
+			out = append(out, c23RspMulti{RspMulti: true, Evs: append([]string{}, cur...), W: 2, M: 1})
 		}
 		if len(cur) == 3 {
 			return
@@ -435,6 +564,17 @@ func runC23(c *core.Ctx) {
 		c.Res.Transitions += int64(len(cs.Evs) + 3)
 		c.Class("responder-multi")
 		if v := c23RspMultiJudge(cs); v != nil {
+			c.Violate(v.Signature, v.What, v.Replay)
+		}
+	}
+	for i, cs := range c23SharedCases() {
+		if !c.Mine(int64(i)) {
+			continue
+		}
+		c.Res.Evaluations++
+		c.Res.Traces++
+		c.Class("responder-shared-blocks")
+		if v := c23SharedJudge(cs); v != nil {
 			c.Violate(v.Signature, v.What, v.Replay)
 		}
 	}
@@ -575,6 +715,13 @@ func init() {
 			var rm c23RspMulti
 			if json.Unmarshal(raw, &rm) == nil && rm.RspMulti {
 				if v := c23RspMultiJudge(rm); v != nil {
+					return v.Signature + ": " + v.What
+				}
+				return fmt.Sprintf("ok (most requests of the peer active at a quiescent point: %d)", c23RspMaxActive)
+			}
+			var sc c23Shared
+			if json.Unmarshal(raw, &sc) == nil && sc.Shared {
+				if v := c23SharedJudge(sc); v != nil {
 					return v.Signature + ": " + v.What
 				}
 				return "ok"
